@@ -74,6 +74,16 @@ class Program:
         m = ms.get(mname)
         return m['fn'] if m else None
 
+    def wrapper_target(self, fn):
+        """the method a synthetic promotion wrapper forwards to (its only static call), or None"""
+        f = self.funcs.get(fn)
+        if f is None:
+            return None
+        calls = [i for b in f.blocks for i in b['instrs'] if i['op'] == 'Call']
+        if len(calls) != 1 or not calls[0]['call'].get('static'):
+            return None
+        return calls[0]['call']['static']
+
     def implementors(self, iface_ts):
         """concrete named types (T or *T) of the module that implement iface_ts"""
         itd = self.under(iface_ts)
